@@ -57,7 +57,8 @@ func TestC16Deadliner(t *testing.T) {
 }
 
 func runCase(rt *rapid.T) {
-	const unit = 10 * time.Millisecond
+	// the lattice's time unit: milliseconds up to hours (deadlines minutes or hours away behave like near ones)
+	unit := rapid.SampledFrom([]time.Duration{10 * time.Millisecond, 10 * time.Millisecond, time.Second, 7 * time.Minute, 3 * time.Hour}).Draw(rt, "timeUnit")
 	w := &world{base: time.Now(), deadline: map[core.Duty]time.Duration{}}
 
 	// Universe of duties with deadlines on a lattice.
